@@ -555,6 +555,14 @@ def generate_all(base_build_dir):
     except TranslationError as e:
         ep["failures"].append("translator: %s" % e)
     groups["ep"] = ep
+    ep2 = {"obligations": [], "failures": []}
+    try:
+        r = gen_ep_formulas(inc, os.path.join(gen_dir, "Ep2Formulas.lean"), cpfx="ep2", fpfx="fp2")
+        ep2["obligations"] += r["obligations"]
+        ep2["failures"] += r["failures"]
+    except TranslationError as e:
+        ep2["failures"].append("translator: %s" % e)
+    groups["ep2"] = ep2
     import translate_params
     pr = translate_params.generate(base_build_dir)
     groups["params"] = {"obligations": pr["obligations"], "failures": pr["failures"]}
